@@ -299,3 +299,8 @@ def fidelity(tier, seed):
     """A-FRONT guard: the scalar functions of the files under contract, interpreter (float mode) vs compiled real code, bit for bit"""
     from gm2v import fidelity as _fid
     return _fid.scalar_guard(['src/THDM/gm2_2loop_B.cpp'], ['src/gm2_ffunctions.cpp', 'src/gm2_dilog.cpp', 'src/gm2_numerics.cpp'], n_calls=25 if tier == 'quick' else 200, seed=seed, ns_prefix='thdm::', approx=('T7', 'T8'))
+
+# Contracts on single calls carry over to every call in a process only if no function keeps state between calls: C19's static-frame obligation is a lemma here.
+from contracts.shared import reregister as _rr_static
+from contracts import c19 as _c19_static
+_rr_static('C10', 'C19', 'C19.no_stateful_local_statics', 'C10.lemma.no_state_between_calls', replay=None)
